@@ -14,13 +14,13 @@ var propOrder = []string{"C01", "C02", "C03", "C04", "C05", "C06", "C07", "C08",
 var props = map[string]*PropDef{
 	"C01": {
 		Rules:      []string{"MATRIX", "KIND-1", "DEPTH-1", "MAPCACHE-1", "TXN-1", "CASE-SYM", "NUMSTATE-1", "TXN-2", "TXN-3", "PAIR-1", "FULL-1", "SURR-1", "EOF-1", "CTRL-1"},
-		Decided:    "the sibling recognisers (token path, value path, raw-value path) agree on which checks exist and which option controls them (duplicate names under exactly AllowDuplicateNames, UTF-8 validation unless exactly AllowInvalidUTF8, string-only names, exhaustive kind dispatch with failing defaults, the RFC 8259 start-byte table); the depth limit is the same in all six guards and each guard is evaluated on every path; io.EOF is only produced at depth 1; the duplicate-name set stays complete when it switches to a map; hexadecimal/exponent letters are matched case-insensitively; the resumable number scanner's resume states match what it consumed. Also: name namespaces are pushed and popped in balance and never mutated on a rejected ReadToken/ReadValue; a two-byte marker such as \\u is matched with a consistent ==&&== / !=||!= test; scanner validators' consumed length is never discarded; utf16.DecodeRune's verdict is checked; io.EOF is only produced at depth 1 on an identity test with the scanner's own sentinel.",
+		Decided:    "the sibling recognisers (token path, value path, raw-value path) agree on which checks exist and which option controls them (duplicate names under exactly AllowDuplicateNames, UTF-8 validation unless exactly AllowInvalidUTF8, string-only names, exhaustive kind dispatch with failing defaults, the RFC 8259 start-byte table); the depth limit is the same in all six guards and each guard is evaluated on every path; io.EOF is only produced at depth 1; the duplicate-name set stays complete when it switches to a map; hexadecimal/exponent letters are matched case-insensitively; the resumable number scanner's resume states match what it consumed. Also: name namespaces are pushed and popped in balance and never mutated on a rejected ReadToken/ReadValue; a two-byte marker such as \\u is matched with a consistent ==&&== / !=||!= test; scanner validators' consumed length is never discarded; utf16.DecodeRune's verdict is checked; io.EOF is only produced at depth 1 on an identity test with the scanner's own sentinel. Every ordered comparison with 0x20 in the scanners keeps the space itself on the non-control side.",
 		NotDecided: "that each lexical recogniser accepts exactly its RFC production (index arithmetic of ConsumeString/ConsumeNumber beyond the structural facts above).",
 		Technique:  "sibling-implementation matrix over type-checked syntax; constant/table evaluation; path-sensitive go/cfg dataflow for guards",
 	},
 	"C02": {
 		Rules:      []string{"FP-1", "FP-2", "FP-3", "FP-4", "STALE-3", "NS-2", "SINK-1", "USER-1", "USER-2", "ERR-1", "TABLE-ESC", "PANIC-1", "NS-3", "UNWRITE-3", "PREC-1", "NS-4", "UNSUP-1"},
-		Decided:    "the marshal fast paths that write the encoder buffer directly obey the protocol that keeps their output grammatical (store/Increment pairing, position and whitespace guards, delimiter construction, flush delivery, no foreign write while a buffer alias is pending); bytes produced by user code are always re-validated and user calls that receive the encoder are bracketed by the one-value check; encoder namespaces are only disabled where names are unique by construction; bytes that bypass string validation come from reviewed ASCII-safe producers; no coder/arshaler error is dropped; explicit panics are classified. After a failed nested marshal the disabled namespaces of every stack level are invalidated. Taking back an empty member (omitempty) trims separators unconditionally, whatever option wrote them.",
+		Decided:    "the marshal fast paths that write the encoder buffer directly obey the protocol that keeps their output grammatical (store/Increment pairing, position and whitespace guards, delimiter construction, flush delivery, no foreign write while a buffer alias is pending); bytes produced by user code are always re-validated and user calls that receive the encoder are bracketed by the one-value check; encoder namespaces are only disabled where names are unique by construction; bytes that bypass string validation come from reviewed ASCII-safe producers; no coder/arshaler error is dropped; explicit panics are classified. After a failed nested marshal the disabled namespaces of every stack level are invalidated. Taking back an empty member (omitempty) trims separators unconditionally, whatever option wrote them. A namespace is only disabled on an object this function has already opened; a method arshaler installed over a default one sets nonDefault; every ErrUnsupported test uses errors.Is.",
 		NotDecided: "validity of what strconv/time/base64 append; absence of implicit panics (index, nil); correctness of WriteToken/WriteValue themselves (C06).",
 		Technique:  "path-sensitive go/cfg dataflow over finite atoms; guard dominance; sink/producer audit",
 	},
@@ -44,7 +44,7 @@ var props = map[string]*PropDef{
 	},
 	"C06": {
 		Rules:      []string{"TXN-1", "TXN-2", "TXN-3", "MATRIX", "DEPTH-1", "KIND-1", "OPT-5", "WS-1", "POOL-2", "NS-3", "NS-4", "VERB-1"},
-		Decided:    "a rejected WriteToken/WriteValue/AppendRaw leaves the abstract encoder state untouched on every feasible path (commit protocol), the state machine and the namespace set are transactional, scratch namespaces are balanced; the encoder columns of the recogniser matrix hold (duplicate names, UTF-8, string-only names, exhaustive dispatch, depth limit); tag flags are cleared on descent; token path and value path emit separators and whitespace in the same order. Disabled namespaces are invalidated at every level after a failure; every field of a pooled coder's sub-structures is reset unconditionally.",
+		Decided:    "a rejected WriteToken/WriteValue/AppendRaw leaves the abstract encoder state untouched on every feasible path (commit protocol), the state machine and the namespace set are transactional, scratch namespaces are balanced; the encoder columns of the recogniser matrix hold (duplicate names, UTF-8, string-only names, exhaustive dispatch, depth limit); tag flags are cleared on descent; token path and value path emit separators and whitespace in the same order. Disabled namespaces are invalidated at every level after a failure; every field of a pooled coder's sub-structures is reset unconditionally. A namespace is disabled only after the opening token was written; raw string tokens are taken verbatim only on the scanner's verdict.",
 		NotDecided: "that the accepted token sequences are exactly the grammar's prefixes; byte-for-byte formatting of every option combination.",
 		Technique:  "path-sensitive go/cfg dataflow (atoms: mutated, error nil-ness, namespace validity, name position) with recomputed effect summaries; sibling matrix",
 	},
@@ -56,13 +56,13 @@ var props = map[string]*PropDef{
 	},
 	"C08": {
 		Rules:      []string{"NS-1", "NS-2", "NS-3", "MATRIX", "MAPCACHE-1", "TXN-1", "MERGE-1", "POOL-2", "TXN-2", "TXN-3", "FP-2", "VERB-1", "PREC-1", "NS-4"},
-		Decided:    "every place that switches the coder's duplicate check off tracks names another way (struct seen-set, map key presence plus seen-set for pre-populated maps, untyped map), under no option other than AllowDuplicateNames; unknown/fallback members are inserted into the namespace before being skipped; encoder namespaces are only disabled for key kinds with a unique representation and no custom key marshaler; disabled namespaces are invalidated after a failed top-level call; all recogniser paths check duplicates and UTF-8 under exactly their option; the namespace's map cache stays complete. Namespaces are balanced and untouched by rejected calls; the struct member-name fast path is only reachable with the namespace disabled and unique names by construction. Names taken verbatim for the duplicate check come from the scanner's verdict on the same bytes.",
+		Decided:    "every place that switches the coder's duplicate check off tracks names another way (struct seen-set, map key presence plus seen-set for pre-populated maps, untyped map), under no option other than AllowDuplicateNames; unknown/fallback members are inserted into the namespace before being skipped; encoder namespaces are only disabled for key kinds with a unique representation and no custom key marshaler; disabled namespaces are invalidated after a failed top-level call; all recogniser paths check duplicates and UTF-8 under exactly their option; the namespace's map cache stays complete. Namespaces are balanced and untouched by rejected calls; the struct member-name fast path is only reachable with the namespace disabled and unique names by construction. Names taken verbatim for the duplicate check come from the scanner's verdict on the same bytes. DisableNamespace never hits the parent frame (it follows the opening ReadToken/WriteToken on all paths).",
 		NotDecided: "later-wins/merge results under AllowDuplicateNames; equality after unescaping itself.",
 		Technique:  "guard dominance; path-sensitive go/cfg dataflow; sibling matrix",
 	},
 	"C09": {
 		Rules:      []string{"V1-1", "V1-2", "V1-3", "V1-4", "OPT-1", "FLAGSYM-1", "ADDR-1", "FULL-1", "FLAGPAIR-1", "DEADFIELD-1", "NUMWIDTH-1", "V1-5"},
-		Decided:    "every entry from v1 into the v2 API runs under DefaultOptionsV1 (or the explicit legacy set for the syntax-only helpers) and coder option fields are only extended; each v1 default flag has a constructor and is read by the implementation; under legacy error semantics the next value is syntax-checked before the target is touched; the streaming Decoder's offset flags are reset together; the v1 constants are consistent; marshal/unmarshal honour the two-sided legacy options symmetrically. The forcedAddr bit of every addressableValue matches its provenance (scratch copy / dereferenced pointer / part of parent), which is what v1's method-calling rules depend on; a scanner used as validator covers the whole input. The legacy pre-validation is given unmarshalDecode's own `last` flag; flags required together are never tested with one masked Get; conversions use the type's width; no latch field (v1 Encoder's sticky error) is left unwritten.",
+		Decided:    "every entry from v1 into the v2 API runs under DefaultOptionsV1 (or the explicit legacy set for the syntax-only helpers) and coder option fields are only extended; each v1 default flag has a constructor and is read by the implementation; under legacy error semantics the next value is syntax-checked before the target is touched; the streaming Decoder's offset flags are reset together; the v1 constants are consistent; marshal/unmarshal honour the two-sided legacy options symmetrically. The forcedAddr bit of every addressableValue matches its provenance (scratch copy / dereferenced pointer / part of parent), which is what v1's method-calling rules depend on; a scanner used as validator covers the whole input. The legacy pre-validation is given unmarshalDecode's own `last` flag; flags required together are never tested with one masked Get; conversions use the type's width; no latch field (v1 Encoder's sticky error) is left unwritten. Test-then-set option guards of the v1 coders test the option they set; the forcedAddr bit is not forged by indirect().",
 		NotDecided: "behavioural equality with the toolchain's encoding/json (a comparison of executions; static analysis of one side says nothing about the other), e.g. the indentation placeholder arithmetic of v1.Indent.",
 		Technique:  "provenance of option arguments; sibling agreement; path-sensitive must-precede",
 	},
@@ -74,19 +74,19 @@ var props = map[string]*PropDef{
 	},
 	"C11": {
 		Rules:      []string{"TABLE-ESC", "SINK-1", "MATRIX", "OPT-1", "WIDTH-1", "CASE-SYM", "VERB-1", "PAIR-1", "SURR-1", "INDEX-1", "ESCSET-1", "CTRL-1"},
-		Decided:    "the safety clause (no raw < > & / U+2028 U+2029 under the escape options) as a sink audit: the escape table and the quoting code agree, exactly {<,>,&} depend on EscapeForHTML and {U+2028,U+2029} on EscapeForJS in every quoting path, verbatim copies happen only under !AnyEscape, bytes that skip validation come from reviewed producers, pre-quoted names are emitted only when they need no escaping, every AppendQuote on an output path receives the real flags, index arithmetic follows the rune width. Strings are only taken verbatim on the scanner's verdict about the same bytes; two-byte markers are tested consistently; surrogate pairs are combined only on utf16.DecodeRune's verdict.",
+		Decided:    "the safety clause (no raw < > & / U+2028 U+2029 under the escape options) as a sink audit: the escape table and the quoting code agree, exactly {<,>,&} depend on EscapeForHTML and {U+2028,U+2029} on EscapeForJS in every quoting path, verbatim copies happen only under !AnyEscape, bytes that skip validation come from reviewed producers, pre-quoted names are emitted only when they need no escaping, every AppendQuote on an output path receives the real flags, index arithmetic follows the rune width. Strings are only taken verbatim on the scanner's verdict about the same bytes; two-byte markers are tested consistently; surrogate pairs are combined only on utf16.DecodeRune's verdict. The control-character boundary (< 0x20) is the same in every recogniser.",
 		NotDecided: "losslessness, minimality, one-U+FFFD-per-byte (value-level).",
 		Technique:  "table evaluation; sink/producer audit; guard-set extraction",
 	},
 	"C12": {
 		Rules:      []string{"FORMAT-1", "WIDTH-1", "TABLE-ESC", "TXN-2", "DEPTH-1", "WS-1", "MATRIX", "POOL-1", "POOL-3", "ESCSET-1", "CTRL-1"},
-		Decided:    "Value.format/AppendFormat store or append the result only after WriteValue succeeded (src unchanged on error, no rewrite when identical); the presets pass exactly their documented options before the caller's; reformat* only appends slices of the source, structural constants, indentation and the output of ReformatString/ReformatNumber, with verbatim copies guarded by the simple scanners; the raw-value path applies the same duplicate/UTF-8/depth checks as the other recognisers; a rejected WriteValue appends nothing; the scratch encoder is pooled correctly and its buffer is copied out.",
+		Decided:    "Value.format/AppendFormat store or append the result only after WriteValue succeeded (src unchanged on error, no rewrite when identical); the presets pass exactly their documented options before the caller's; reformat* only appends slices of the source, structural constants, indentation and the output of ReformatString/ReformatNumber, with verbatim copies guarded by the simple scanners; the raw-value path applies the same duplicate/UTF-8/depth checks as the other recognisers; a rejected WriteValue appends nothing; the scratch encoder is pooled correctly and its buffer is copied out. The control-character boundary (< 0x20) is the same in every recogniser.",
 		NotDecided: "semantic equality of input and output, fixed-point property (value-level).",
 		Technique:  "path-sensitive go/cfg dataflow; append-source audit; sibling matrix",
 	},
 	"C13": {
 		Rules:      []string{"FORMAT-1", "ESCSET-1", "CASE-SYM", "CTRL-1"},
-		Decided:    "the Canonicalize preset, the reorder hook for objects and arrays under ReorderRawObjects, the number shortcut guard, and that every member comparison used for reordering (the already-sorted test and the sort) is objectMember.Compare, which orders names with CompareUTF16. The verbatim number copy in ReformatNumber is decided by a length test on the number of bytes copied. The scanner's set of control characters with a mandatory short escape equals the encoder's.",
+		Decided:    "the Canonicalize preset, the reorder hook for objects and arrays under ReorderRawObjects, the number shortcut guard, and that every member comparison used for reordering (the already-sorted test and the sort) is objectMember.Compare, which orders names with CompareUTF16. The verbatim number copy in ReformatNumber is decided by a length test on the number of bytes copied. The scanner's set of control characters with a mandatory short escape equals the encoder's. The control-character boundary (< 0x20) is the same in every recogniser.",
 		NotDecided: "the UTF-16 ordering computed by CompareUTF16 and the ES6 number spelling themselves (value-level).",
 		Technique:  "structural wiring checks",
 	},
@@ -110,7 +110,7 @@ var props = map[string]*PropDef{
 	},
 	"C17": {
 		Rules:      []string{"PREC-1", "USER-1", "USER-2", "ERR-1", "ANYPATH-1", "ADDR-1", "MONO-1", "PUBLISH-1", "WITHIN-1", "UNSUP-1"},
-		Decided:    "method wrappers are installed in the documented precedence order, each falling back to the composition captured right before it; no methods on pointer/interface kinds; default, methods, time are composed in that order; caller functions are scanned in list order with ErrUnsupported fall-through and are consulted at every dispatch; bytes from user code are re-validated; user calls that receive the coder are bracketed by WithinArshalCall and the one-value check, with the ErrUnsupported fall-through only when nothing was touched; the any fast paths respect any-applicable caller functions. forcedAddr provenance (pointer-receiver methods on addressable and non-addressable values); nonDefault only grows; a cached arshaler is complete before it is published.",
+		Decided:    "method wrappers are installed in the documented precedence order, each falling back to the composition captured right before it; no methods on pointer/interface kinds; default, methods, time are composed in that order; caller functions are scanned in list order with ErrUnsupported fall-through and are consulted at every dispatch; bytes from user code are re-validated; user calls that receive the coder are bracketed by WithinArshalCall and the one-value check, with the ErrUnsupported fall-through only when nothing was touched; the any fast paths respect any-applicable caller functions. forcedAddr provenance (pointer-receiver methods on addressable and non-addressable values); nonDefault only grows; a cached arshaler is complete before it is published. The sanitiser of non-skippable functions and the dispatcher recognise ErrUnsupported the same way (errors.Is).",
 		NotDecided: "which method actually runs for a given value (reflection over runtime types).",
 		Technique:  "structural ordering checks; bracket rule; path-sensitive consult-before-dispatch",
 	},
@@ -122,7 +122,7 @@ var props = map[string]*PropDef{
 	},
 	"C19": {
 		Rules:      []string{"OPT-1", "OPT-2", "OPT-3", "OPT-4", "OPT-5", "OPT-6", "OPT-7", "V1-1", "GLOBAL-1", "FLAGMASK-1", "FLAGPAIR-1", "V1-5"},
-		Decided:    "the flag constants form a consistent bit algebra with the documented v1 defaults; every boolean option constructor is injective and value-faithful; Join and GetOption agree on which flag guards which value field (including the nested *Struct case and the json-injected options); per-call options are saved and restored by defer before any mutation; struct-tag options are restored on every path; one-sided options are only read on their side; v1 entry points pass DefaultOptionsV1; the shared default option sets are never mutated. JoinOptions returns a fresh value; GetOption's boolean case returns the stored value whenever the option may be present; Has-masks cover the flags consulted under them.",
+		Decided:    "the flag constants form a consistent bit algebra with the documented v1 defaults; every boolean option constructor is injective and value-faithful; Join and GetOption agree on which flag guards which value field (including the nested *Struct case and the json-injected options); per-call options are saved and restored by defer before any mutation; struct-tag options are restored on every path; one-sided options are only read on their side; v1 entry points pass DefaultOptionsV1; the shared default option sets are never mutated. JoinOptions returns a fresh value; GetOption's boolean case returns the stored value whenever the option may be present; Has-masks cover the flags consulted under them. Boolean options are read with Get, never with Has (presence is not value), inside entry points and arshalers; Join never clears presence bits; v1 test-then-set guards test the option they set.",
 		NotDecided: "the bit arithmetic of Flags.Join/Set/Get/Clear themselves (five-line bodies; their correctness is arithmetic).",
 		Technique:  "constant-table evaluation; path-sensitive check of constructors and scoping; sibling agreement of type switches",
 	},
